@@ -8,8 +8,9 @@ M: TLC explores spec/Span.tla (EXTENDS Ctxt) exhaustively within the bounds of e
    NoTrace, StackOK).
 G: every transition is printed as a program with the level-A prediction after every step;
    the harness (vh_span/c04_span) runs each program on the real crate - every span node
-   through a real macro expansion (#[emit::span] sync/async fn, with guard:, with ok_lvl:,
-   new_span!, SpanGuard::new) on a Runtime with recording emitter, scripted filter,
+   through a real macro expansion (#[emit::span] sync/async fn, with guard: and complete() /
+   complete_with(), with ok_lvl: / err_lvl: on Ok and Err results, new_span!, SpanGuard::new,
+   guards finished by drop / complete / complete_with) on a Runtime with recording emitter, scripted filter,
    ThreadLocalCtxt, counter clock and counter rng - and compares, after every step, the
    records that reached the emitter (kind, trace_id, span_id, span_parent) and
    SpanCtxt::current on every thread with the prediction, ids up to a bijection.
@@ -26,6 +27,7 @@ def run(ctx):
         configs = [
             {"cfg": "Span_quick.cfg", "workers": 4, "actions": ACTIONS + TASKS + LAZY},
             {"cfg": "Span_quick2.cfg", "workers": 4, "actions": ACTIONS + ["Incoming"]},
+            {"cfg": "Span_quick3.cfg", "workers": 4, "actions": ACTIONS + ["Incoming"]},
         ]
     else:
         configs = [
@@ -42,7 +44,7 @@ def run(ctx):
         "the random source yields no zero and no repeat (the statement's condition); ids are compared up to a bijection, so the draw order is free",
         "span guards are moved into the closure / async block of their frame, as the documentation of SpanGuard::new requires",
         "no panics inside spans (unwinding through frames is C03, completion on panic is C05); no root frames between spans",
-        "incoming ids are pushed outside any span (at the edge of the service), as trace id + span id",
+        "incoming ids are pushed outside any span (at the edge of the service): trace id + span id, a trace id alone (spans join it, no parent), a span id alone (spans take it as parent and start their own trace)",
         "a rejected span's frame carries the ids that were ambient where the span was created (snapshot), which is what 'children attach to the nearest enabled ancestor' needs after a hand-off",
         "bounds: see coverage.tlc_runs[*].constants",
     ]
